@@ -65,13 +65,13 @@ seq_t dtw_distance{{ suffix }}{{ suffix2 }}(seq_t *s1, idx_t l1,
         {%- else %}
         max_dist = ub_euclidean{{ suffix2 }}(s1, l1, s2, l2);
         {%- endif %}
+        if (settings->only_ub) {
+            return max_dist;
+        }
         {%- if "euclidean" == inner_dist %}
         {%- else %}
         max_dist = pow(max_dist, 2);
         {%- endif %}
-        if (settings->only_ub) {
-            return max_dist;
-        }
         // Rounding (sqrt followed by pow) must not prune the Euclidean alignment itself
         max_dist *= (1 + 1e-12);
     } else if (max_dist == 0) {
